@@ -53,34 +53,37 @@ type Effect struct {
 }
 
 type Contract struct {
-	Func        string
-	Props       []string
-	Mode        string
-	Requires    []*Clause
-	Ensures     []*Clause
-	Loops       map[int]*LoopSpec
-	Fresh       []*FreshVar
-	Subst       map[string]ast.Expr
-	SubstSrc    map[string]string
-	Inline      bool
-	Pure        bool
-	Trusted     bool
-	Modifies    []string
-	Effects     []*Effect
-	Line        int
-	NoSafety    bool                 // do not emit implicit safety obligations (used for spec helpers)
-	Callbacks   map[string]*Contract // contracts for func-typed params
-	Notes       []string
-	Lemma       bool // pure lemma: no body, requires ==> ensures checked as a formula
-	LemmaVars   []QVar
-	MaxPaths    int
-	MergeExits  bool
-	GuardsOn    bool
-	GhostEntry  []*Effect // ghost assignments executed at function entry (explicit instrumentation)
-	LoopInvs    []*Clause
-	Writes      []string // slice parameters whose elements the function writes
-	SafetyProps []string
-	Uses        []string // quantified callee clauses to assume at call sites: "callee.clause" or "callee.*"
+	Func          string
+	Props         []string
+	Mode          string
+	Requires      []*Clause
+	Ensures       []*Clause
+	Loops         map[int]*LoopSpec
+	Fresh         []*FreshVar
+	Subst         map[string]ast.Expr
+	SubstSrc      map[string]string
+	Inline        bool
+	Pure          bool
+	Trusted       bool
+	Modifies      []string
+	Effects       []*Effect
+	Line          int
+	NoSafety      bool                 // do not emit implicit safety obligations (used for spec helpers)
+	Callbacks     map[string]*Contract // contracts for func-typed params
+	Notes         []string
+	Lemma         bool // pure lemma: no body, requires ==> ensures checked as a formula
+	LemmaVars     []QVar
+	MaxPaths      int
+	MergeExits    bool
+	GuardsOn      bool
+	GhostAfter    []*GhostAnchor // ghost assignments executed after the statement whose text starts with Anchor
+	GhostEntry    []*Effect      // ghost assignments executed at function entry (explicit instrumentation)
+	LoopInvs      []*Clause
+	LoopsByText   map[string]*LoopSpec // loops bound by header text prefix
+	LoopTextOrder []string
+	Writes        []string // slice parameters whose elements the function writes
+	SafetyProps   []string
+	Uses          []string // quantified callee clauses to assume at call sites: "callee.clause" or "callee.*"
 }
 
 type UFDecl struct {
@@ -93,6 +96,11 @@ type PredDecl struct {
 	Name   string
 	Params []QVar
 	Body   ast.Expr
+}
+
+type GhostAnchor struct {
+	Anchor string
+	Eff    *Effect
 }
 
 type GuardDecl struct {
@@ -545,6 +553,44 @@ func (cf *ContractFile) parseOne(path string) error {
 					cl.Name = fmt.Sprintf("loopinv.%d", len(c.LoopInvs)+1)
 				}
 				c.LoopInvs = append(c.LoopInvs, cl)
+			case "ghostafter":
+				// ghostafter "<statement text prefix>" : [if COND :] LHS = RHS
+				if !strings.HasPrefix(rest, "\"") {
+					return fail(fmt.Errorf("ghostafter needs a quoted anchor"))
+				}
+				j := strings.Index(rest[1:], "\"")
+				if j < 0 {
+					return fail(fmt.Errorf("ghostafter: unterminated anchor"))
+				}
+				anchor := rest[1 : 1+j]
+				body := strings.TrimSpace(rest[2+j:])
+				body = strings.TrimSpace(strings.TrimPrefix(body, ":"))
+				var cond ast.Expr
+				if strings.HasPrefix(body, "if ") {
+					i := strings.Index(body, " : ")
+					if i < 0 {
+						return fail(fmt.Errorf("ghostafter if without ' : '"))
+					}
+					ce, err := parser.ParseExpr(rewriteSpecSyntax(body[3:i]))
+					if err != nil {
+						return fail(err)
+					}
+					cond = ce
+					body = body[i+3:]
+				}
+				l, r, ok := strings.Cut(body, " = ")
+				if !ok {
+					return fail(fmt.Errorf("ghostafter needs LHS = RHS"))
+				}
+				le, err := parser.ParseExpr(l)
+				if err != nil {
+					return fail(err)
+				}
+				re, err := parser.ParseExpr(rewriteSpecSyntax(r))
+				if err != nil {
+					return fail(err)
+				}
+				c.GhostAfter = append(c.GhostAfter, &GhostAnchor{Anchor: anchor, Eff: &Effect{LHS: le, RHS: re, Src: body, Cond: cond}})
 			case "ghostentry":
 				l, r, ok := strings.Cut(rest, " = ")
 				if !ok {
@@ -611,19 +657,53 @@ func (cf *ContractFile) parseOne(path string) error {
 				c.Effects = append(c.Effects, &Effect{LHS: le, RHS: re, Src: rest, Cond: cond})
 			case "loop":
 				// loop N invariant E | loop N unroll K | loop N decreases E | loop N modifies ...
-				f := strings.SplitN(rest, " ", 3)
-				if len(f) < 3 {
-					return fail(fmt.Errorf("bad loop clause"))
+				var f []string
+				var ls *LoopSpec
+				n := 0
+				if strings.HasPrefix(rest, "\"") {
+					// loop "<header text prefix>" kind ...
+					j := strings.Index(rest[1:], "\"")
+					if j < 0 {
+						return fail(fmt.Errorf("loop: unterminated header text"))
+					}
+					hdr := rest[1 : 1+j]
+					tail := strings.SplitN(strings.TrimSpace(rest[2+j:]), " ", 2)
+					if len(tail) < 2 {
+						return fail(fmt.Errorf("bad loop clause"))
+					}
+					f = []string{hdr, tail[0], tail[1]}
+					if c.LoopsByText == nil {
+						c.LoopsByText = map[string]*LoopSpec{}
+					}
+					ls = c.LoopsByText[hdr]
+					if ls == nil {
+						ls = &LoopSpec{}
+						c.LoopsByText[hdr] = ls
+						c.LoopTextOrder = append(c.LoopTextOrder, hdr)
+					}
+					n = 100 + len(c.LoopTextOrder)
+					for i, h := range c.LoopTextOrder {
+						if h == hdr {
+							n = 101 + i
+						}
+					}
+				} else {
+					f = strings.SplitN(rest, " ", 3)
+					if len(f) < 3 {
+						return fail(fmt.Errorf("bad loop clause"))
+					}
+					var err error
+					n, err = strconv.Atoi(f[0])
+					if err != nil {
+						return fail(err)
+					}
+					ls = c.Loops[n]
+					if ls == nil {
+						ls = &LoopSpec{}
+						c.Loops[n] = ls
+					}
 				}
-				n, err := strconv.Atoi(f[0])
-				if err != nil {
-					return fail(err)
-				}
-				ls := c.Loops[n]
-				if ls == nil {
-					ls = &LoopSpec{}
-					c.Loops[n] = ls
-				}
+				var err error
 				switch f[1] {
 				case "invariant":
 					cl, err := parseClause(f[2], it.line)
